@@ -6,6 +6,7 @@ ssize_t g_pos0; size_t g_size0, g_cap0;
 size_t g_wl;          /* logical index of the watched physical slot in the pre-state (>= size: dead slot) */
 uint32_t g_wser;      /* serial stored in the watched slot in the pre-state */
 size_t g_k;           /* arbitrary logical index */
+uint32_t g_popser;    /* serial of the element a pop removes (pre-state) */
 
 #define OBJ(p) __CPROVER_POINTER_OBJECT(p)
 /* the receiver is a well-formed ring buffer owning one allocation */
